@@ -22,7 +22,20 @@ THEOREMS = ["Nmfu.C18_convertString_diagnoses", "Nmfu.C18_int_types_total", "Nmf
 OPTION_POOL = ["-O0", "-O1", "-O2", "-O3", "-feof-support", "-fyield-support", "-findirect-start-ptr",
                "-fallocate-str-space-dynamic", "-fallocate-str-space-dynamic-on-demand", "-fdelete-string-free-memory",
                "-fstrings-as-u8", "-fhook-per-state", "-fstrict-done-token-generation", "-fzero-len-input-support",
-               "-funsafe-string-indexing", "-fuse-packed-enums", "-finclude-user-ptr", "-fcollapse-transition-ranges"]
+               "-funsafe-string-indexing", "-fuse-packed-enums", "-finclude-user-ptr", "-fcollapse-transition-ranges",
+               "-fcodepoints-in-errors", ("--collapsed-range-length", "0"), ("--collapsed-range-length", "-3"),
+               ("--collapsed-range-length", "1")]
+
+
+def pick_options(rng, lo, hi):
+    out = []
+    for o in rng.sample(OPTION_POOL, rng.randint(lo, hi)):
+        out += list(o) if isinstance(o, tuple) else [o]
+    return out
+
+
+NEEDS = {"i": "out int i;", "u": "out int{unsigned} u;", "b": "out bool b;", "e": "out enum{A,B} e;", "s": "out str[4] s;",
+         "t": "out unterminated str[3] t;", "r": "out raw{uint32_t} r;", "h": "hook h;", "F": "finishcode F;", "Y": "yieldcode Y;"}
 
 
 def edge_programs(rng, n):
@@ -33,7 +46,9 @@ def edge_programs(rng, n):
                  "out str[4] s;", "out str[1] s;", "out str[0] s;", 'out str[4] s = "abcdefgh";', 'out str[4] s = "ab";', "out unterminated str[3] t;",
                  'out str[4] s = 5;', "out raw{uint32_t} r;", "out raw{struct foo} r;", "out raw{uint8_t} r = 5;", "out int i = 5;", 'out int i = "x";',
                  "out int i = [1 + 2];", "out int i = j;", "hook h;", "hook h;", "finishcode F;", "yieldcode Y;", "finishcode F, G;",
-                 "macro m() { \"a\"; }", "macro m(out o) { o = 1; }", "macro m(expr e) { i = e; }", "macro r() { r(); }"]
+                 "macro m() { \"a\"; }", "macro m(out o) { o = 1; }", "macro m(expr e) { i = e; }", "macro r() { r(); }",
+                 "macro m() {}", "macro m(hook k) { k(); }", "macro m(out o, expr v) { o = v; }", "macro m(match p) { p; (p \"!\"); }",
+                 "macro r() { optional { loop { case { \"a\" -> { try { r(); } catch { } } \"b\" -> { break; } } } } }"]
     stmts = ['"a";', '"\\q";', '"\\x4";', '"\\u1234";', '"\\xzz";', '"";', '""i;', '"6"b;', '"zz"b;', '"61 62"b;', "/a+/;", "/a{1000}/;", "/a{2,1}/;", "/[z-a]/;", "/()/;",
              "/a**/;", "/(a|)/;", "/[^\\x00-\\xff]/;", "b/61/;", "b/6/;", "b/[00-ff]+ff/;", "end;", "wait end;", "wait \"\";",
              "i = 5;", "i = [i + 1];", "i = true;", "i = A;", "i = \"s\";", "i += 5;", "i += \"a\";", "b = 5;", "b = [1 < 2];", "b = true;", "e = A;", "e = Z;", "e = 1;",
@@ -47,7 +62,10 @@ def edge_programs(rng, n):
              "case { \"a\" -> { } }", "case { \"a\" -> { } \"a\" -> { } }", "case { \"a\" -> { } \"ab\" -> { } }", "case { else -> { } }", "case { else -> { } else -> { } }", "case { \"a\", else -> { i = 1; } \"b\" -> { } }",
              "greedy case { \"a\" -> { } \"ab\" -> { } }", "greedy case { prio 1 /a+/ -> { } prio 1 /a+b?/ -> { } }", "greedy case { /a*/ -> { } }",
              "foreach { \"a\"; } do { i = 1; }", "foreach { \"a\"; } do { \"b\"; }", "foreach { i = 1; } do { i = 2; }", "foreach { /a+/; } do { s += [$last]; }", "foreach { } do { }",
-             "(\"a\" \"b\");", "(\"a\" (\"b\" /c/));", "();", "[1];", "[i];"]
+             "(\"a\" \"b\");", "(\"a\" (\"b\" /c/));", "();", "[1];", "[i];",
+             'm("ab");', "m(/x+/);", "m([i + 1]);", "m(h);", "m(i, [i + 1]);", 'm(i, "k");', "m(/a/);", "e = C;",
+             'if 100 / 0 > 1 { "a"; }', 'if (1 << -1) == 0 { "a"; }', 'if 8 % (4 - 4) == 0 && 2 > 1 { "a"; }', "if 6 / 3 == 2 { i = 1; }",
+             "optional { end; } end;", "case { end -> { } /a*/ -> { } }", '"a";\x0c', '\x0c"b" "c";', "i = [1 / (2 - 2)];", "i = [5 % 0];"]
     out = []
     for k in range(n):
         nd = rng.randint(0, 5)
@@ -58,8 +76,16 @@ def edge_programs(rng, n):
         if rng.random() < 0.3:
             d = rng.randint(1, 12)
             body = ["optional { " * d + rng.choice(stmts) + " }" * d]
+        # mostly declare what the statements use, so that they get past name resolution
+        if rng.random() < 0.75:
+            import re as _re
+            used = set(_re.findall(r"\b([iubestrhFY])\b", " ".join(body)))
+            declared = " ".join(decls)
+            for v in sorted(used):
+                if not _re.search(r"\b" + v + r"\b", declared):
+                    decls.append(NEEDS[v])
         src = "\n".join(decls) + "\nparser {\n  " + "\n  ".join(body) + "\n}\n"
-        args = rng.sample(OPTION_POOL, rng.randint(0, 4))
+        args = pick_options(rng, 0, 4)
         out.append({"name": f"edge-{k}", "src": src, "args": args})
     return out
 
@@ -102,7 +128,7 @@ def main():
     n_gen = 300 if ck.tier == "quick" else 4000
     jobs = edge_programs(rng, n_edge)
     for p in population.generated(ck.seed, n_gen):
-        jobs.append({"name": p["name"], "src": p["src"], "args": p["args"] + rng.sample(OPTION_POOL, rng.randint(0, 3))})
+        jobs.append({"name": p["name"], "src": p["src"], "args": p["args"] + pick_options(rng, 0, 3)})
     with mp.Pool(min(15, os.cpu_count() or 4), maxtasksperchild=200) as pool:
         results = pool.map(work, jobs, chunksize=8)
     byname = {j["name"]: j for j in jobs}
